@@ -89,6 +89,9 @@ def run_case(case):
                     return [harness.disc("exception", "open_alos2(create_cache=True)", "a tree", harness.exc_text(err))]
                 if case.get("cache_layout") is not None:
                     rng = random.Random(case["cache_layout"])
+                    missing = [name for name in info["names"]["sar_imagery"] if not c07.user_index_path(prod.url, name).is_file()]
+                    if missing:
+                        return [harness.disc("cache-not-written", missing[0] + ".index", "one index file per image in the user cache dir after create_cache=True", "missing")]
                     for name in info["names"]["sar_imagery"]:
                         where = rng.choice(["user", "adjacent", "none"])
                         p = c07.user_index_path(prod.url, name)
